@@ -192,6 +192,8 @@ func createBooleanCandidate(owner *CandidateNode, value bool) *CandidateNode {
 }
 
 func createTraversalTree(path []interface{}, traversePrefs traversePreferences, targetKey bool) *ExpressionNode {
+	// the elements of a path are keys as they are written in a document: `*` and `?` in them are characters
+	traversePrefs.ExactKeyMatch = true
 	if len(path) == 0 {
 		return &ExpressionNode{Operation: &Operation{OperationType: selfReferenceOpType}}
 	} else if len(path) == 1 {
